@@ -103,6 +103,7 @@ def handle (st : DState) (line : String) : DState × String :=
   | ["srv", "copy", i, mv, byUid, set, dest, pick] =>
     srvOut st (Server.copyMove st.srv i.toNat! (mv == "1") (byUid == "1") (parseSet set) dest.toNat! pick.toNat!)
   | ["srv", "noop", i] => srvOut st (Server.noop st.srv i.toNat!)
+  | ["srv", "status", i, box] => srvOut st (Server.status st.srv i.toNat! box.toNat!)
   | ["srv", "check", i] => srvOut st (Server.check st.srv i.toNat!)
   | ["srv", "close", i] => srvOut st (Server.close st.srv i.toNat!)
   | ["srv", "search", i, byUid, seqs, uids, tests] =>
